@@ -109,6 +109,8 @@ namespace c15
         bool set_size_cursor(unsigned len, unsigned cur) override { s.set_size_and_cursor(len, cur); return true; }
         int backspace(unsigned n) override { return s.backspace((int)n); }
         int del(unsigned n) override { return s.del((int)n); }
+        int backspace_i(int n) override { return s.backspace(n); }
+        int del_i(int n) override { return s.del(n); }
         int left() override { return s.left(); }
         int right() override { return s.right(); }
         void reset() override { s.reset(); }
